@@ -11,6 +11,20 @@ import re
 
 
 PROPS = {
+    "C13": {
+        "coq_targets": ["theories/Names/ResolveProofs.vo"],
+        "harness": ["c13"],
+        "disagreement_is_violation": True,
+        "axioms": [],
+        "trusted_base": COMMON_TB + [
+            "modelled, not verified: rusty_linter/src/core/type_resolver_impl.rs (letter -> default type table, DEFtype statements in program order), names/{name_info,compacts,names_inner,names_outer}.rs (extended vs compact variables, visibility of globals in subprograms: SHARED and constants only), converter/expr_rules/variable.rs rule order - as Names/Resolve.v",
+            "harness/src/c13.rs: program templates that turn 'same variable / different variables / rejected' and 'local / shared global / constant' into printed values, the choice of literals by a small expectation function (a wrong expectation makes the checker reject the program and shows up as a disagreement)",
+            "NOT modelled: arrays, user-defined types, function-result names, name clashes between kinds (checked by the checker's own errors only)",
+        ],
+        "assumptions": [
+            "DEFtype statements stand at the top of the program; a single-letter DEFtype is written without a range (the parser rejects X-X)",
+        ],
+    },
     "C07": {
         "coq_targets": ["theories/Lex/RowColProofs.vo", "theories/PC/Proofs.vo"],
         "harness": ["c07"],
